@@ -18,7 +18,10 @@ def coeff_pool():
 
     a, b = sympy.symbols("a b")
     return [(sympy.Integer(0), True), (sympy.Integer(1), False), (sympy.Integer(-2), False), (a, False), (a - a, True), (sympy.log(a) + 1, False),
-            (a * b, False), (sympy.Rational(1, 3), False), (b - 2, False), ((a + 1) ** 2 - a**2 - 2 * a - 1, True)]
+            (a * b, False), (sympy.Rational(1, 3), False), (b - 2, False), ((a + 1) ** 2 - a**2 - 2 * a - 1, True),
+            # numeric coefficients of every kind sympy has: floats of both signs and of magnitude below and above 1, negative rationals
+            (sympy.Float(-0.5), False), (sympy.Float(0.25), False), (sympy.Float(-0.125) * a, False), (sympy.Float(2.5), False),
+            (sympy.Float(-3.75), False), (sympy.Rational(-1, 2), False), (sympy.Float(-0.4) * a * b, False)]
 
 
 def expected_of(deg):
@@ -66,7 +69,7 @@ def run(ctx, widen=False):
     import sympy
 
     rng = ctx.rng
-    ctx.rule = ("coefficient lists over a 10-value pool (0, 1, -2, a, a-a, log(a)+1, a*b, 1/3, b-2, an identically-zero combination) for degree 0..4|6: exhaustive over a "
+    ctx.rule = ("coefficient lists over a 17-value pool (0, 1, -2, a, a-a, log(a)+1, a*b, 1/3, b-2, an identically-zero combination, floats -0.5 0.25 2.5 -3.75, -0.125a, -0.4ab, -1/2) for degree 0..4|6: exhaustive over a "
                 "5-value sub-pool for degree<=3|4, random beyond; each in expanded, Horner and padded-with-cancelling-terms form, plus unexpanded (x+1)^k products; "
                 "non-trivial = leading listed coefficient is identically zero (true degree lower than the list length) or a coefficient is symbolic")
     pool = coeff_pool()
